@@ -163,3 +163,35 @@ func VfC01_BackendPairing() {
 	nd.Cover("paired")
 	c.Stop()
 }
+
+// VfC01_SplitConcurrent: the per-key answers of one split request arrive on two backend
+// connections at the same time (two reader goroutines): the client's request is still completed
+// exactly once (a second completion is a close-of-closed-channel crash).
+func VfC01_SplitConcurrent() {
+	nd.ConcreteClock(true)
+	nd.VisibleAtomics(true)
+	a, b := "10.0.0.1:7000", "10.0.0.2:7000"
+	p, clients := vfNewProc(nil, a, b)
+	p.u.slots[vfSlotOf2("k1")] = &instance{Addr: a}
+	p.u.slots[vfSlotOf2("k2")] = &instance{Addr: b}
+	cmds := []string{"del", "mget", "mset"}
+	cmd := cmds[nd.Concrete(nd.Choice("cmd", len(cmds)))]
+	var raw *rawRequest
+	if cmd == "mset" {
+		raw = newRawRequest(newStringArray(cmd, "k1", "1", "k2", "2"))
+	} else {
+		raw = newRawRequest(newStringArray(cmd, "k1", "k2"))
+	}
+	p.handleRequest(raw)
+	ra, rb := vfTake(clients[a]), vfTake(clients[b])
+	if ra == nil || rb == nil {
+		nd.Assert(false, "both per-key requests were forwarded")
+		return
+	}
+	nd.PanicLabel("concurrent-completion")
+	go func() { ra.SetResponse(newInteger(1)) }()
+	go func() { rb.SetResponse(newInteger(1)) }()
+	nd.Quiesce()
+	nd.Assert(vfDone(raw.done), "the client's request is completed (exactly once) after both answers")
+	nd.Cover("both-answered")
+}
